@@ -300,53 +300,74 @@ Qed.
 Definition agrees (impl spec : res (list Z)) : Prop :=
   impl = spec \/ (spec = Ok [] /\ impl = ErrB).
 
+Lemma loopF_checked c n a stop st f bare :
+  chk_loop c = true -> st <> 0 ->
+  let values := pyrange a (if mod3 c then stop + sgn1 st else stop + st) st in
+  agrees (loop_pathF c n a stop st f bare) (guard n (map f values)).
+Proof.
+  intros Hc Hst values. unfold loop_pathF. fold values. rewrite Hc.
+  destruct (st =? 0) eqn:Z0; [lia|].
+  destruct (negb bare && negb (empty_ok c) && match values with [] => true | _ => false end) eqn:E.
+  - right. destruct values; [|rewrite andb_false_r in E; discriminate]. split; reflexivity.
+  - left. cbn [andb]. unfold guard.
+    destruct (all_in n (map f values)) eqn:A; cbn [negb]; [|reflexivity].
+    apply loop_tail_ok. apply all_in_Forall. exact A.
+Qed.
+
 Lemma loop_checked c n a stop st off :
   chk_loop c = true -> st <> 0 ->
   let values := pyrange a (if mod3 c then stop + sgn1 st else stop + st) st in
   agrees (loop_path c n a stop st off) (guard n (map (fun v => v + off) values)).
-Proof.
-  intros Hc Hst values. unfold loop_path. fold values. rewrite Hc.
-  destruct (st =? 0) eqn:Z0; [lia|].
-  destruct (negb (off =? 0) && negb (empty_ok c) && match values with [] => true | _ => false end) eqn:E.
-  - right. destruct values; [|rewrite andb_false_r in E; discriminate]. split; reflexivity.
-  - left. cbn [andb]. unfold guard.
-    destruct (all_in n (map (fun v => v + off) values)) eqn:A; cbn [negb]; [|reflexivity].
-    apply loop_tail_ok. apply all_in_Forall. exact A.
-Qed.
+Proof. intros Hc Hst. exact (loopF_checked c n a stop st (fun v => v + off) (off =? 0) Hc Hst). Qed.
 
 (* with the empty-range repair the loop path is exactly the guarded Modelica selection *)
+Lemma loopF_checked_exact c n a stop st f bare :
+  chk_loop c = true -> empty_ok c = true -> st <> 0 ->
+  loop_pathF c n a stop st f bare =
+  guard n (map f (pyrange a (if mod3 c then stop + sgn1 st else stop + st) st)).
+Proof.
+  intros Hc He Hst. unfold loop_pathF. cbv zeta. rewrite Hc, He.
+  destruct (st =? 0) eqn:Z0; [lia|].
+  cbn [negb]. rewrite andb_false_r. cbn [andb]. unfold guard.
+  destruct (all_in n (map f
+             (pyrange a (if mod3 c then stop + sgn1 st else stop + st) st))) eqn:A;
+    cbn [negb]; [|reflexivity].
+  apply loop_tail_ok. apply all_in_Forall. exact A.
+Qed.
+
 Lemma loop_checked_exact c n a stop st off :
   chk_loop c = true -> empty_ok c = true -> st <> 0 ->
   loop_path c n a stop st off =
   guard n (map (fun v => v + off) (pyrange a (if mod3 c then stop + sgn1 st else stop + st) st)).
+Proof. intros Hc He Hst. exact (loopF_checked_exact c n a stop st (fun v => v + off) (off =? 0) Hc He Hst). Qed.
+
+Lemma loopF_in_range c n a b f bare :
+  (forall i, a <= i <= b -> 1 <= f i <= n) -> (bare = true \/ a <= b) ->
+  loop_pathF c n a b 1 f bare = guard n (map f (mrange a 1 b)).
 Proof.
-  intros Hc He Hst. unfold loop_path. cbv zeta. rewrite Hc, He.
-  destruct (st =? 0) eqn:Z0; [lia|].
-  cbn [negb]. rewrite andb_false_r. cbn [andb]. unfold guard.
-  destruct (all_in n (map (fun v => v + off)
-             (pyrange a (if mod3 c then stop + sgn1 st else stop + st) st))) eqn:A;
-    cbn [negb]; [|reflexivity].
-  apply loop_tail_ok. apply all_in_Forall. exact A.
+  intros Hin Hne. unfold loop_pathF, mrange. change (1 =? 0) with false. cbv iota.
+  replace (if mod3 c then b + sgn1 1 else b + 1) with (b + 1)
+    by (unfold sgn1; change (0 <? 1) with true; destruct (mod3 c); reflexivity).
+  unfold sgn1. change (0 <? 1) with true. cbv iota. cbv zeta.
+  assert (Hall : Forall (fun k => 1 <= k <= n) (map f (pyrange a (b + 1) 1))).
+  { rewrite Forall_map. apply Forall_pyrange. intros i Hi. rewrite pylen_1 in Hi.
+    apply Hin. lia. }
+  destruct (negb bare && negb (empty_ok c) && match pyrange a (b + 1) 1 with [] => true | _ => false end) eqn:E.
+  - exfalso. destruct Hne as [->|Hab]; [cbn in E; discriminate|].
+    destruct (pyrange_cons a (b + 1) 1) as (tl & Hc & _); [rewrite pylen_1; lia|].
+    rewrite Hc in E. rewrite andb_false_r in E. discriminate.
+  - unfold guard. replace (all_in n (map f (pyrange a (b + 1) 1))) with true
+      by (symmetry; apply all_in_Forall; exact Hall).
+    rewrite andb_false_r. apply loop_tail_ok. exact Hall.
 Qed.
 
 Lemma loop_in_range c n a b off :
   (forall i, a <= i <= b -> 1 <= i + off <= n) -> (off = 0 \/ a <= b) ->
   loop_path c n a b 1 off = guard n (map (fun v => v + off) (mrange a 1 b)).
 Proof.
-  intros Hin Hne. unfold loop_path, mrange. change (1 =? 0) with false. cbv iota.
-  replace (if mod3 c then b + sgn1 1 else b + 1) with (b + 1)
-    by (unfold sgn1; change (0 <? 1) with true; destruct (mod3 c); reflexivity).
-  unfold sgn1. change (0 <? 1) with true. cbv iota.
-  assert (Hall : Forall (fun k => 1 <= k <= n) (map (fun v => v + off) (pyrange a (b + 1) 1))).
-  { rewrite Forall_map. apply Forall_pyrange. intros i Hi. rewrite pylen_1 in Hi. cbn beta.
-    specialize (Hin (a + i * 1)). lia. }
-  destruct (negb (off =? 0) && negb (empty_ok c) && match pyrange a (b + 1) 1 with [] => true | _ => false end) eqn:E.
-  - exfalso. destruct Hne as [->|Hab]; [cbn in E; discriminate|].
-    destruct (pyrange_cons a (b + 1) 1) as (tl & Hc & _); [rewrite pylen_1; lia|].
-    rewrite Hc in E. rewrite andb_false_r in E. discriminate.
-  - unfold guard. replace (all_in n (map (fun v => v + off) (pyrange a (b + 1) 1))) with true
-      by (symmetry; apply all_in_Forall; exact Hall).
-    rewrite andb_false_r. apply loop_tail_ok. exact Hall.
+  intros Hin Hne. unfold loop_path. apply (loopF_in_range c n a b (fun v => v + off) (off =? 0)).
+  - exact Hin.
+  - destruct Hne as [->|H]; [left; reflexivity|right; exact H].
 Qed.
 
 (* ---- the subscript classes ------------------------------------------------------------------ *)
@@ -356,6 +377,7 @@ Definition in_range (n : Z) (u : sub) : Prop :=
   | Colon => True
   | Sl a b => 1 <= a /\ 0 <= b <= n
   | LoopV a b off => (forall i, a <= i <= b -> 1 <= i + off <= n) /\ (off = 0 \/ a <= b)
+  | LoopX a b e => (forall i, a <= i <= b -> 1 <= leval e i <= n) /\ (is_var e = true \/ a <= b)
   | Sl3 _ _ _ => False
   | LoopV3 _ _ _ _ => False
   end.
@@ -381,7 +403,7 @@ Qed.
 (* whatever the configuration: in-range two-part subscripts select the Modelica elements *)
 Lemma index_in_range c n u : 0 <= n -> in_range n u -> index c n u = modelica n u.
 Proof.
-  intros Hn H. destruct u as [i| |a b|a b c3|a b off|a b c3 off]; cbn [in_range] in H; try contradiction.
+  intros Hn H. destruct u as [i| |a b|a b c3|a b off|a b c3 off|a b e]; cbn [in_range] in H; try contradiction.
   - apply index_int.
   - cbn [index modelica]. destruct (chk_slice c) eqn:Hc.
     + rewrite slice_checked by (assumption || lia). apply guard_colon.
@@ -393,6 +415,7 @@ Proof.
       unfold mrange, sgn1. change (0 <? 1) with true. cbv iota.
       symmetry. apply guard_range_ok; lia.
   - cbn [index modelica]. destruct H as (H1 & H2). apply loop_in_range; assumption.
+  - cbn [index modelica]. destruct H as (H1 & H2). apply loopF_in_range; assumption.
 Qed.
 
 (* repaired code: every subscript *)
@@ -404,7 +427,7 @@ Lemma index_checked c n u :
   agrees (index c n u) (modelica n u).
 Proof.
   intros Hs Hl (Hstep & H3) Hn.
-  destruct u as [i| |a b|a b c3|a b off|a b c3 off]; cbn [step_of three_part] in *.
+  destruct u as [i| |a b|a b c3|a b off|a b c3 off|a b e]; cbn [step_of three_part] in *.
   - left. apply index_int.
   - left. cbn [index modelica]. rewrite Hs. rewrite slice_checked by (assumption || lia).
     apply guard_colon.
@@ -418,6 +441,11 @@ Proof.
   - cbn [index modelica]. rewrite (H3 eq_refl).
     pose proof (loop_checked c n a c3 b off Hl Hstep) as H.
     cbv zeta in H. rewrite (H3 eq_refl) in H. exact H.
+  - cbn [index modelica]. pose proof (loopF_checked c n a b 1 (leval e) (is_var e) Hl ltac:(lia)) as H.
+    cbv zeta in H. unfold mrange.
+    replace (if mod3 c then b + sgn1 1 else b + 1) with (b + sgn1 1) in H
+      by (unfold sgn1; change (0 <? 1) with true; destruct (mod3 c); reflexivity).
+    exact H.
 Qed.
 
 Lemma two_part_wf c u : three_part u = false -> wf c u.
@@ -430,7 +458,7 @@ Lemma index_checked_exact c n u :
   index c n u = modelica n u.
 Proof.
   intros Hs Hl He (Hstep & H3) Hn.
-  destruct u as [i| |a b|a b c3|a b off|a b c3 off]; cbn [step_of three_part] in *.
+  destruct u as [i| |a b|a b c3|a b off|a b c3 off|a b e]; cbn [step_of three_part] in *.
   - apply index_int.
   - cbn [index modelica]. rewrite Hs. rewrite slice_checked by (assumption || lia).
     apply guard_colon.
@@ -444,6 +472,12 @@ Proof.
   - cbn [index modelica]. rewrite (H3 eq_refl).
     pose proof (loop_checked_exact c n a c3 b off Hl He Hstep) as H.
     rewrite (H3 eq_refl) in H. exact H.
+  - cbn [index modelica].
+    pose proof (loopF_checked_exact c n a b 1 (leval e) (is_var e) Hl He ltac:(lia)) as H.
+    unfold mrange.
+    replace (if mod3 c then b + sgn1 1 else b + 1) with (b + sgn1 1) in H
+      by (unfold sgn1; change (0 <? 1) with true; destruct (mod3 c); reflexivity).
+    exact H.
 Qed.
 
 (* consequences of `agrees` *)
@@ -468,4 +502,19 @@ Proof.
   destruct (index c n u) as [l1| |] eqn:E1, (index c m v) as [l2| |] eqn:E2;
     try (destruct (Z.odd _); discriminate).
   rewrite (agrees_sound _ _ l1 A1 eq_refl), (agrees_sound _ _ l2 A2 eq_refl). auto.
+Qed.
+
+(* ---- subscripts on a scalar symbol ---------------------------------------------------------- *)
+Lemma scalar_rejected c k u :
+  (is_loop u = true -> loop_step c u <> 0) ->
+  (bare_loop u = false \/ chk_scalar_loop c = true) ->
+  index_scalar c k u = modelica_scalar u.
+Proof.
+  intros Hs Hb. unfold index_scalar, modelica_scalar.
+  assert (E1 : is_loop u && (loop_step c u =? 0) = false).
+  { destruct (is_loop u); [|reflexivity]. cbn [andb]. specialize (Hs eq_refl). lia. }
+  rewrite E1.
+  assert (E2 : bare_loop u && negb (chk_scalar_loop c) = false).
+  { destruct Hb as [-> | ->]; [reflexivity|cbn [negb]; apply andb_false_r]. }
+  rewrite E2. reflexivity.
 Qed.
